@@ -514,7 +514,7 @@ def run_check(prop, tier, seed):
             classes[k] = classes.get(k, 0) + 1
             if not (prop.trivial_raw(l, raw[i]) if hasattr(prop, "trivial_raw") else prop.trivial(l, impl[i])):
                 nontrivial.add(l)
-            if ok_drv and impl[i] != untag(model[i]):
+            if ok_drv and untag(impl[i]) != untag(model[i]):
                 corr_bad.append(i)
             if not spec_match(spec[i], impl[i]):
                 spec_bad.append(i)
@@ -536,7 +536,7 @@ def run_check(prop, tier, seed):
     reported = set()
     for i in spec_bad:
         f = finding_for(prop.id, lines[i], model[i] if model else "", findings)
-        if f is not None and impl[i] == untag(model[i]):
+        if f is not None and untag(impl[i]) == untag(model[i]):
             key = f["key"]
             if key not in reported:
                 reported.add(key)
@@ -556,7 +556,7 @@ def run_check(prop, tier, seed):
         im = prop.project_all([small], [run_impl([small])[0]])[0]
         mo, sp = (run_model([small]) if ok_drv else (["?"], ["?"]))
         f2 = finding_for(prop.id, small, mo[0], findings)
-        if f2 is not None and im == untag(mo[0]):
+        if f2 is not None and untag(im) == untag(mo[0]):
             if f2["key"] not in reported:
                 reported.add(f2["key"])
                 known.append((f2, small))
@@ -655,7 +655,7 @@ def replay(path, props):
         if not spec_match(sp[0], im):
             print("VIOLATION property=%s replay=%s" % (pid, path))
             rc = 1
-        elif im != untag(mo[0]):
+        elif untag(im) != untag(mo[0]):
             print("implementation and model differ (correspondence), specification satisfied")
     else:
         print(json.dumps(data, indent=1))
